@@ -79,5 +79,13 @@ func drawIns(t *rapid.T, cfg rvref.Cfg) *rvref.Ins {
 func drawInsWord(t *rapid.T, cfg rvref.Cfg) (*rvref.Ins, uint32) {
 	in := drawIns(t, cfg)
 	r := rapid.Uint32().Draw(t, "free")
+	// x0 as a source makes effects (addresses in particular) constant after folding:
+	// make that special case frequent
+	if uniformInt(t, 5, "rs1x0") == 0 {
+		r &^= 0x1f << 15
+	}
+	if uniformInt(t, 8, "rs2x0") == 0 {
+		r &^= 0x1f << 20
+	}
 	return in, (r &^ in.Mask) | in.Match
 }
